@@ -64,11 +64,11 @@ impl Backend {
             Backend::Avx2 => std::arch::is_x86_feature_detected!("avx2"),
             Backend::Avx2Fma => {
                 std::arch::is_x86_feature_detected!("avx2") && std::arch::is_x86_feature_detected!("fma")
-            },
+            }
             Backend::Avx512 => {
                 std::arch::is_x86_feature_detected!("avx512f")
                     && std::arch::is_x86_feature_detected!("avx512bw")
-            },
+            }
         }
     }
 }
@@ -120,18 +120,28 @@ pub const OP_SUFFIXES: [(&str, Op); 19] = [
 
 impl Op {
     pub fn name(self) -> &'static str {
-        OP_SUFFIXES.iter().find(|(_, o)| *o == self).map(|(s, _)| &s[1..]).unwrap()
+        OP_SUFFIXES
+            .iter()
+            .find(|(_, o)| *o == self)
+            .map(|(s, _)| &s[1..])
+            .unwrap()
     }
     pub fn is_arith(self) -> bool {
         use Op::*;
-        matches!(self, AddValue | SubValue | MulValue | DivValue | AddVector | SubVector | MulVector | DivVector)
+        matches!(
+            self,
+            AddValue | SubValue | MulValue | DivValue | AddVector | SubVector | MulVector | DivVector
+        )
     }
     pub fn is_div(self) -> bool {
         matches!(self, Op::DivValue | Op::DivVector)
     }
     pub fn is_minmax(self) -> bool {
         use Op::*;
-        matches!(self, MaxHorizontal | MinHorizontal | MaxVertical | MinVertical | MaxValue | MinValue)
+        matches!(
+            self,
+            MaxHorizontal | MinHorizontal | MaxVertical | MinVertical | MaxValue | MinValue
+        )
     }
     pub fn is_sum_like(self) -> bool {
         matches!(self, Op::Dot | Op::SquaredEuclidean | Op::SquaredNorm | Op::Sum)
@@ -169,7 +179,14 @@ impl<T: 'static> Routine<T> {
         } else {
             panic!("unknown backend in routine name {name}")
         };
-        Routine { name, dims, safe, backend, op, f }
+        Routine {
+            name,
+            dims,
+            safe,
+            backend,
+            op,
+            f,
+        }
     }
 
     pub fn kind(&self) -> Kind {
@@ -565,37 +582,97 @@ impl_tables!(u64; U64_REDUCE1_XANY, U64_REDUCE1_XCONST, U64_REDUCE1_SAFE_XANY, U
 #[macro_export]
 macro_rules! all_elems {
     ($t:ident => $body:block) => {{
-        { type $t = f32; $body }
-        { type $t = f64; $body }
-        { type $t = i8; $body }
-        { type $t = i16; $body }
-        { type $t = i32; $body }
-        { type $t = i64; $body }
-        { type $t = u8; $body }
-        { type $t = u16; $body }
-        { type $t = u32; $body }
-        { type $t = u64; $body }
+        {
+            type $t = f32;
+            $body
+        }
+        {
+            type $t = f64;
+            $body
+        }
+        {
+            type $t = i8;
+            $body
+        }
+        {
+            type $t = i16;
+            $body
+        }
+        {
+            type $t = i32;
+            $body
+        }
+        {
+            type $t = i64;
+            $body
+        }
+        {
+            type $t = u8;
+            $body
+        }
+        {
+            type $t = u16;
+            $body
+        }
+        {
+            type $t = u32;
+            $body
+        }
+        {
+            type $t = u64;
+            $body
+        }
     }};
 }
 
 #[macro_export]
 macro_rules! int_elems {
     ($t:ident => $body:block) => {{
-        { type $t = i8; $body }
-        { type $t = i16; $body }
-        { type $t = i32; $body }
-        { type $t = i64; $body }
-        { type $t = u8; $body }
-        { type $t = u16; $body }
-        { type $t = u32; $body }
-        { type $t = u64; $body }
+        {
+            type $t = i8;
+            $body
+        }
+        {
+            type $t = i16;
+            $body
+        }
+        {
+            type $t = i32;
+            $body
+        }
+        {
+            type $t = i64;
+            $body
+        }
+        {
+            type $t = u8;
+            $body
+        }
+        {
+            type $t = u16;
+            $body
+        }
+        {
+            type $t = u32;
+            $body
+        }
+        {
+            type $t = u64;
+            $body
+        }
     }};
 }
 
 #[macro_export]
 macro_rules! float_elems {
     ($t:ident => $body:block) => {{
-        { type $t = f32; $body }
-        { type $t = f64; $body }
+        {
+            type $t = f32;
+            $body
+        }
+        {
+            type $t = f64;
+            $body
+        }
     }};
 }
